@@ -113,7 +113,7 @@ fn c06_def(plan: &c06::Plan) -> driver::PropertyDef {
     driver::PropertyDef {
         id: "C06",
         level: "exploration",
-        rule: "cases = corpus programs (tests/docs/examples of the repository) + generated well-typed programs biased to order-sensitive shapes + ill-typed programs; each case runs P simulated parties (distinct SipHash keys, key-counter drift, repeated compilations, permuted constant maps, 4 option combinations, up to 2 functions). evaluations = compilations executed. distinct_nontrivial = distinct (source, function, options) triples that compiled to a circuit under at least one party (hash of the triple), i.e. triples on which circuits were actually compared across seeds",
+        rule: "cases = corpus programs (tests/docs/examples of the repository) + generated well-typed programs biased to order-sensitive shapes + ill-typed programs; each case runs P simulated parties (distinct SipHash keys, key-counter drift, repeated compilations, permuted constant maps, 4 option combinations, up to 2 functions). evaluations = compilations executed. distinct_nontrivial = distinct (source, function, options) triples that compiled to a circuit AND during whose compilation at least one hash-map iteration site (probe from the verif_hooks feature) was walked with >= 2 keys in >= 2 distinct raw orders across parties, i.e. triples on which hash order really varied and circuits were compared",
         assumptions: vec![
             "a thread with seam-provided RandomState keys behaves like a fresh process with those keys (checked against fresh OS processes in the fidelity batch)".into(),
             "HashMap/HashSet with RandomState is the only nondeterminism source in the library (no threads, clocks, statics, pointers hashed; re-checked by grep guard)".into(),
@@ -217,6 +217,21 @@ fn check(property: &str, tier: &str) -> i32 {
             };
             let mut def = c06_def(&plan);
             def.determinism_sample = if tier == "thorough" { 512 } else { 64 };
+            // fidelity batch first: validates the thread-as-process abstraction against real processes
+            match c06::fidelity(&plan, seed, if tier == "thorough" { 200 } else { 24 }) {
+                Ok((checked, skipped)) => {
+                    println!("fidelity: {checked} (program, keys, history) samples agree between in-thread party and fresh OS process ({skipped} not comparable)");
+                    def.assumptions.push(format!("fidelity batch this run: {checked} samples compared against fresh OS processes, 0 mismatches, {skipped} not comparable"));
+                    if checked == 0 {
+                        println!("HARNESS-ERROR: fidelity batch compared nothing");
+                        return 2;
+                    }
+                }
+                Err(e) => {
+                    println!("HARNESS-ERROR: {e}");
+                    return 2;
+                }
+            }
             driver::run_check(&def, tier, seed)
         }
         "C11" => {
@@ -373,6 +388,10 @@ fn main() {
         Some("corpus-filter") => corpus_filter(),
         Some("check") => std::process::exit(check(&args[2], args.get(3).map(|s| s.as_str()).unwrap_or("quick"))),
         Some("replay") => std::process::exit(replay(&args[2])),
+        Some("c06-child") => {
+            install_panic_hook();
+            std::process::exit(c06::fidelity_child())
+        }
         Some("replay-inner") => {
             supervise::limit_address_space(8 << 30);
             std::process::exit(replay_inner(&args[2]))
